@@ -617,7 +617,8 @@ def parse_beacon_gate(data: bytes) -> BeaconGateOptions:
 
 def beacon_gate_options_string(bgo: BeaconGateOptions) -> list[str]:
     """Return the enabled BeaconGate WinAPI's as a list of strings"""
-    options = {k for k, v in bgo._values.items() if v}
+    names = [getattr(field, "name", field) for field in BeaconGateOptions.fields]
+    options = {name for name in names if getattr(bgo, name)}
 
     comms = {"InternetOpenA", "InternetConnectA"}
     core = {
